@@ -27,7 +27,7 @@ ASSUMPTIONS = ["a connection belongs to a peer when the node dialled that peer, 
 TIMEOUT = {"quick": 900, "thorough": 3600}
 SCTP_CLONES = {"quick": ['walk3', 'exh11'], "thorough": ['walk14', 'walk15', 'exh15']}
 ACTIONS = ["in1", "in2", "in3", "cer_ok", "cer_unknown", "cer_nocommon", "cea_ok", "cea_rej", "dpr", "gone", "reset",
-           "adv_ce", "adv_idle", "adv_to_dwr", "dwa", "node_close", "req"]
+           "adv_ce", "adv_idle", "adv_to_dwr", "dwa", "node_close", "req", "werr"]
 NAMES = ["peer1.verif.example", "peer2.verif.example", "peer3.verif.example"]
 
 
@@ -146,6 +146,15 @@ class Case:
             if g is None:
                 return False
             g.sp.reset_conn()
+        elif a == "werr":
+            # the node's next write on an established connection fails hard (EPIPE): socket error on the send side
+            g = self.pick(lambda g: g.owner is not None)
+            if g is None:
+                return False
+            import errno
+            g.sp.node_sock.send_plan.append(("err", errno.EPIPE))
+            hbh, e2e = self.ids()
+            g.sp.send(M.dwr(g.owner, self.REALM, hbh=hbh, e2e=e2e))
         elif a == "adv_ce":
             h.advance(4)
         elif a == "adv_idle":
